@@ -200,6 +200,19 @@ theorem gen_read_eq (p : Params) (st : St) :
 
 /-- the constructor enforces exactly `Params.ok` -/
 theorem gen_ok_iff (p : Params) : Gen.Standardiser.ok p ↔ p.ok := Iff.rfl
+/-- **end to end, about the text of the source**: for parameters the constructor's own checks accept, what the
+demand setter of `standardiser.py` (as regenerated on this run) forwards to the target lies within
+[minimum, maximum], and within the supply window unless minimum / maximum force it out -/
+theorem gen_forwarded_in_limits (p : Params) (hp : Gen.Standardiser.ok p) (s v : Rat) :
+    p.min ≤ Gen.Standardiser.forwarded p s v ∧ Gen.Standardiser.forwarded p s v ≤ p.max ∧
+    WindowOrForced p s (Gen.Standardiser.forwarded p s v) := by
+  have hp' : p.ok := (gen_ok_iff p).mp hp
+  let st : St := { pool := { supply := s, demand := fin 0, util := 0, alloc := 0 }, stored := fin 0 }
+  have h1 := fwd_mem_minmax p hp' st v
+  have h2 := fwd_window_or_forced p hp' st v
+  have e := (gen_write_eq p st v).2.1
+  rw [e] at h1 h2
+  exact ⟨h1.1, h1.2, h2⟩
 /-! ### every supply, the infinite ones included -/
 
 /-- at a finite supply the extended definitions are the ordinary ones -/
